@@ -321,7 +321,9 @@ static void reschedule(bool exiting) {
             fatal("deadlock", dumpThreads());
         }
         int c = -1;
-        if (cfg.starveLimit > 0) { // bounded unfairness: nobody stays runnable but unscheduled for too long
+        for (int i = 0; i < n && c < 0; i++)
+            if (cand[i] >= C_ACTOR && cand[i] < C_TIMER && actors[cand[i] - C_ACTOR]->urgent()) c = cand[i];
+        if (c < 0 && cfg.starveLimit > 0) { // bounded unfairness: nobody stays runnable but unscheduled for too long
             long oldest = (long)st_.steps - cfg.starveLimit;
             for (int i = 0; i < n; i++) {
                 long since = cand[i] == C_TIMER ? timerSince : cand[i] >= C_ACTOR ? actorSince[cand[i] - C_ACTOR] : th[cand[i]].lastRun;
